@@ -148,7 +148,7 @@ fn envelopes() -> Vec<Envelope> {
     v
 }
 
-pub const OPS: [&str; 17] = [
+pub const OPS: [&str; 20] = [
     "format",
     "format_flat",
     "tree_format",
@@ -165,6 +165,11 @@ pub const OPS: [&str; 17] = [
     "param_lookup",
     "ctx_lookup",
     "digest_bytes",
+    // format while this thread holds a registry guard (only after the thread has formatted once, so
+    // that lazy initialisation - which itself consults the registries - is over)
+    "kv_guard_format",
+    "fn_guard_format",
+    "param_guard_format",
     "register_tags",
 ];
 
@@ -212,6 +217,24 @@ fn run_op(op: &str, e: &Envelope, idx: usize) -> String {
             let c = g.as_ref().unwrap();
             format!("{} {} {}", c.tags().name_for_value(200 + (idx as u64) % 3), c.known_values().name(KnownValue::new((idx as u64) % 20)), c.tags().name_for_value(40000 + (idx as u64) % 30))
         }
+        "kv_guard_format" => {
+            let g = KNOWN_VALUES.get();
+            let t = e.format();
+            drop(g);
+            t
+        }
+        "fn_guard_format" => {
+            let g = bc_envelope::extension::expressions::GLOBAL_FUNCTIONS.get();
+            let t = e.format();
+            drop(g);
+            t
+        }
+        "param_guard_format" => {
+            let g = bc_envelope::extension::expressions::GLOBAL_PARAMETERS.get();
+            let t = e.format();
+            drop(g);
+            t
+        }
         "digest_bytes" => format!("{} {}", hex::encode(bc_components::DigestProvider::digest(e).data()), hex::encode(e.tagged_cbor().to_cbor_data())),
         "register_tags" => {
             bc_envelope::register_tags();
@@ -231,7 +254,7 @@ fn reference(k: usize, out: &str) {
     }
     let envs = envelopes();
     let mut s = String::new();
-    for op in OPS.iter().filter(|o| **o != "register_tags") {
+    for op in OPS.iter().filter(|o| **o != "register_tags" && !o.ends_with("_guard_format")) {
         for (i, e) in envs.iter().enumerate() {
             let text = run_op(op, e, i);
             s.push_str(&format!("R {} {} {:016x} {}\n", op, i, fnv(text.as_bytes()), text.replace('\n', "\\n").chars().take(160).collect::<String>()));
@@ -287,11 +310,18 @@ fn main() {
             let mut rs = seed ^ ((t as u64 + 1).wrapping_mul(0x9E37_79B9_7F4A_7C15));
             DELAY.with(|d| *d.borrow_mut() = (splitmix(&mut rs), delay_mode));
             let mut events: Vec<Ev> = Vec::with_capacity(len);
+            let mut formatted_once = false;
             barrier.wait();
             for _ in 0..len {
                 let r = splitmix(&mut rs);
                 // register_tags about 1 in 12 operations, so k moves during the trial
-                let op: &'static str = if r % 12 == 0 { "register_tags" } else { OPS[((r >> 8) % (OPS.len() as u64 - 1)) as usize] };
+                let mut op: &'static str = if r % 12 == 0 { "register_tags" } else { OPS[((r >> 8) % (OPS.len() as u64 - 1)) as usize] };
+                if op.ends_with("_guard_format") && !formatted_once {
+                    op = "format";
+                }
+                if op == "format" || op == "format_flat" || op == "tree_format" {
+                    formatted_once = true;
+                }
                 let ei = ((r >> 24) % envs.len() as u64) as usize;
                 let e = &envs[ei];
                 let call = tick();
